@@ -45,6 +45,8 @@ impl PanicInfo {
 
 pub fn guarded<R>(f: impl FnOnce() -> R) -> Result<R, PanicInfo> {
     install_hook();
+    // a call boundary of the observed session: the other party on this thread may move first
+    crate::ambient::tick();
     match panic::catch_unwind(AssertUnwindSafe(f)) {
         Ok(r) => Ok(r),
         Err(_) => {
